@@ -77,6 +77,7 @@ fn main() {
       "C10" => Some(chain::runes::run(&ctx, "C10")),
       "C11" => Some(chain::runes::run(&ctx, "C11")),
       "C15" => Some(chain::configs::run(&ctx)),
+      "C13" => Some(chain::crash::run(&ctx)),
       "C14" => Some(chain::reorg::run(&ctx)),
       "C12" => Some(chain::sched::run(&ctx)),
       "C37" => Some(chain::events::run(&ctx)),
